@@ -62,6 +62,9 @@ PAL_ODD = [
     ({'k': 'verb', 'v': '38;5'}, ['38;5']),
     ({'k': 'verb', 'v': '0'}, ['0']),
     ({'k': 'verb', 'v': '38;5;256'}, ['38;5;256']),
+    ({'k': 'verb', 'v': '4:3'}, ['4:3']),
+    ({'k': 'verb', 'v': '1; 31'}, ['1; 31']),
+    ({'k': 'aset', 'v': '38:2::255:100:0'}, ['38:2::255:100:0']),
     ({'k': 'int', 'v': 73}, ['73']),
     ({'k': 'int', 'v': 56}, ['56']),
     ({'k': 'str', 'v': '74'}, ['74']),
@@ -94,7 +97,7 @@ class Gen:
         self.alpha = alpha or ALPHA
         self.ctrl = 0.0
         self.rare = 0.12          # share of settings from the less common groups / threshold colour arguments
-        self.long = 0.05          # share of texts that are long (beyond 9, 16, 100 characters)
+        self.long = 0.03          # share of texts that are long (beyond 9, 16, 100 characters)
         # a few favourite forms per history: the same member/name applied again and again (shared objects, equal
         # overlapping settings) is what several defects need
         self.fav = [rng.choice(PAL_CORE + PAL_MORE[:6] + ([rng.choice(PAL_RARE[:28])] if rng.random() < 0.3 else [])) for _ in range(2)]
@@ -114,7 +117,7 @@ class Gen:
         if x < self.long:
             n = self.rng.choice([10, 11, 16, 17, 25, 40])
         elif x < self.long * 1.2:
-            n = self.rng.choice([100, 101, 130])
+            n = self.rng.choice([100, 101])
         t = ''.join(self.rng.choice(self.alpha) for _ in range(n))
         if self.rng.random() < 0.04 and t:
             k = self.rng.randrange(len(t))
@@ -182,7 +185,9 @@ class Gen:
         return self.rng.randint(-n, n)
 
     def room(self, k=1):
-        return len(self.m.regs) + k < self.m.max_regs
+        # soft limit; long texts make every re-projection expensive, so histories holding one stay small
+        big = any(sn and len(sn['t']) > 60 for sn in self.m.snaps[1:])
+        return len(self.m.regs) + k < (16 if big else self.m.max_regs)
 
     # -- op generators -----------------------------------------------------------------------------
     def g_new(self):
@@ -236,7 +241,12 @@ class Gen:
             # prefer settings that are actually present
             present = sorted({tuple(self.m.texts.rows[t - 1]) for row in self.m.snaps[r]['s'] for (_, t) in row})
             cands = [(f, d) for (f, d) in PAL_CORE + PAL_MORE if len(d) == 1 and tuple(map(ord, d[0])) in present]
-            if cands and self.rng.random() < 0.8:
+            if len(cands) >= 2 and self.rng.random() < 0.25:
+                (f1, d1), (f2, d2) = self.rng.sample(cands, 2)
+                o['sets'], o['S'] = [f1, f2], list(d1) + list(d2)
+                if self.rng.random() < 0.5:
+                    o['start'], o['end'] = 0, None
+            elif cands and self.rng.random() < 0.8:
                 f, d = self.rng.choice(cands)
                 o['sets'], o['S'] = [f], list(d)
             else:
@@ -268,7 +278,7 @@ class Gen:
             n = len(sn)
             if n < 3 or self.m.kinds[r] != 'S':
                 return self.g_remove()
-            pairs = [('31', '34'), ('34', '31'), ('1', '22'), ('22', '1'), ('31', '38;5;214'), ('4', '21')]
+            pairs = [('31', '34'), ('34', '31'), ('1', '22'), ('22', '1'), ('31', '38;5;214'), ('4', '21'), ('1', '1'), ('31', '31')]
             a_, b_ = self.rng.choice(pairs)
             j = self.rng.randint(1, n - 1)
             k = self.rng.randint(j + 1, n)
@@ -343,8 +353,17 @@ class Gen:
         other = self.rng.choice(['1', '3', '4', '9'])
         self.do({'op': 'apply', 'r': r, 'sets': [{'k': 'aset', 'v': other}], 'S': [other], 'start': j, 'end': self.rng.randint(j + 1, n), 'top': True})
         extra = self.rng.choice([[], ['3'], ['53']])
-        S = [y] + extra
-        self.do({'op': 'apply', 'r': r, 'sets': [{'k': 'aset', 'v': c} for c in S], 'S': S, 'start': j, 'end': self.rng.randint(j + 1, n), 'top': False})
+        S = extra + [y] if self.rng.random() < 0.5 else [y] + extra
+        if self.rng.random() < 0.5 and all(';' not in c for c in S):
+            forms = [{'k': 'str', 'v': ';'.join(S)}]          # one spec that expands to several settings
+            if self.rng.random() < 0.5:
+                forms = forms[0]
+        else:
+            forms = [{'k': 'aset', 'v': c} for c in S]
+        o = {'op': 'apply', 'r': r, 'sets': forms if isinstance(forms, list) else [forms], 'S': S, 'start': j, 'end': self.rng.randint(j + 1, n), 'top': False}
+        if not isinstance(forms, list):
+            o['single'] = True
+        self.do(o)
 
     def g_same_form_nested(self):
         """The same spelling applied on a wide range and again on an inner range, with a conflicting setting in between."""
@@ -419,6 +438,25 @@ class Gen:
             self.do({'op': 'apply', 'r': r, 'sets': [{'k': kind, 'v': code}], 'S': [code], 'start': self.rng.choice([0, a_]), 'end': None, 'top': True})
         target = plain if self.rng.random() < 0.7 else comp
         self.do({'op': 'remove', 'r': r, 'sets': [{'k': 'aset', 'v': target}], 'S': [target], 'start': 0, 'end': self.rng.choice([None, n, n - 1])})
+
+    def g_matching_adjacent(self):
+        """Back-to-back matches of a two-character pattern, with prior formatting that starts inside one match and runs on."""
+        if not self.room(5):
+            return
+        unit = self.rng.choice(['ab', 'xy', 'ha', '12'])
+        k = self.rng.randint(2, 4)
+        text = self.rng.choice(['', '-', 'z']) + unit * k + self.rng.choice(['', '-', unit[0]])
+        off = len(text) - len(text.lstrip('-z'))
+        r = self.do({'op': 'new', 'cls': self.rng.choice('SSA'), 'text': text, 'sets': [], 'S': []})['res'][0]
+        x, y = self.rng.choice([('31', '34'), ('1', '22'), ('41', '42')])
+        st = off + 1 + 2 * self.rng.randint(0, k - 1)
+        e = self.do({'op': 'apply', 'r': r, 'sets': [{'k': 'aset', 'v': x}], 'S': [x], 'start': st, 'end': self.rng.choice([None, len(text), st + 3]), 'top': True})
+        if e['res']:
+            r = e['res'][0]
+        un = self.rng.random() < 0.25
+        self.do({'op': 'unformat_matching' if un else 'format_matching', 'r': r, 'pat': unit, 'regex': self.rng.random() < 0.3,
+                 'match_case': self.rng.random() < 0.5, 'count': self.rng.choice([-1, -1, 2, 3]),
+                 'sets': [{'k': 'aset', 'v': x if un else y}], 'S': [x if un else y]})
 
     def g_match_case_match(self):
         """Case-sensitive matching, an in-place case conversion, the very same matching again."""
@@ -555,6 +593,24 @@ class Gen:
         if o:
             self.do({'op': 'iadd', 'r': r, 'other': o})
 
+    def g_join_plain_escapes(self):
+        """join / + with plain str operands that carry raw escape sequences (each operand is parsed on its own)."""
+        if not self.room(6):
+            return
+        items = []
+        for _ in range(self.rng.randint(2, 4)):
+            t = self.rng.choice(['\x1b[31mERR:', ' disk', '\x1b[1mw', 'ab\x1b[34m', '\x1b[mz', 'x', self.text(), '\x1b[4;38;5;9mq\x1b[m'])
+            items.append(self.do({'op': 'lit', 'text': t})['res'][0])
+        x = self.rng.random()
+        if x < 0.6:
+            if self.rng.random() < 0.4 and self.pick('SA'):
+                items[self.rng.randrange(len(items))] = self.pick('SA')
+            self.do({'op': 'join', 'cls': self.rng.choice('SSA'), 'items': items})
+        else:
+            r = self.pick('SA')
+            if r:
+                self.do({'op': self.rng.choice(['add', 'iadd']), 'r': r, 'other': items[0]})
+
     def g_join(self):
         if not self.room(3):
             return
@@ -650,7 +706,7 @@ class Gen:
         if meth != 'zfill':
             x = self.rng.random()
             if x < 0.6:
-                o['fill'] = self.rng.choice([':', '+', '-', '0', '7', 'x', ' ', '*', '<'])
+                o['fill'] = self.rng.choice([':', '+', '-', '0', '7', 'x', ' ', '*', '<', '\t', '\u00a0', '\u200b', '\u3000', '\u00e9'])
             elif x < 0.65:
                 o['fill'] = self.rng.choice(['', 'ab'])
             o['extend'] = self.rng.random() < 0.65
@@ -667,7 +723,7 @@ class Gen:
         n = self.length(r)
         x = self.rng.random()
         if x < 0.8:
-            fill = self.rng.choice(['', '', ':', '+', '-', '0', '7', 'x', ' ', '<', '*'])
+            fill = self.rng.choice(['', '', ':', '+', '-', '0', '7', 'x', ' ', '<', '*', '\t', '\u00a0', '\u200b'])
             sign = self.rng.choice(['', '', '+', '-'])
             align = self.rng.choice(['<', '>', '^', '^', '']) if (fill or sign) is not None else ''
             width = self.rng.choice(['', str(n), str(n + 1), str(n + 2), str(n + 3), str(n + 6), '0', '03'])
@@ -706,6 +762,14 @@ class Gen:
             if self.rng.random() < 0.5:
                 o['fill'] = '*'
         e = self.do(o)
+        if e['out'] == 'ok' and e['res'] and self.rng.random() < 0.4 and self.room(4):
+            # a second left padding of the result, again by the distance between two of its markers
+            r2 = e['res'][0]
+            n2 = self.length(r2)
+            cp = [0] + self.change_points(r2) + [n2]
+            a2, b2 = sorted(self.rng.sample(cp, 2)) if len(cp) > 2 else (0, n2)
+            e = self.do({'op': 'pad', 'r': r2, 'm': 'rjust', 'width': n2 + max(1, b2 - a2), 'inplace': self.ip(),
+                         'extend': self.rng.random() < 0.5})
         if e['out'] == 'ok' and e['res']:
             self.probe_closed(e['res'][0], 'probe_pad_closed')
 
@@ -941,12 +1005,12 @@ PROFILES = {
     'C11': dict(nonuniform=2.5, strip_enclosed=1.5, new=0.5, case=1.5, strip=2, rmfix=2, replace=3.5, expandtabs=1, split=3.5, splitlines=1.5,
                 partition=2.5, assign_str=1.5, apply=1.5, remove=0.5, add=0.5),
     'C12': dict(nonuniform=2, new=1, pad=5, pad_nested=1.5, pad_pair=1.5, fmt=5, apply=2, remove=0.5, slice=0.5, add=0.5),
-    'C16': weights(matching=6, apply_match=1.0, apply=3, remove=1, slice=0.5, render=0.2, case=1.5, copy=0.3, match_case_match=1.5),
+    'C16': weights(matching=6, apply_match=1.0, apply=3, remove=1, slice=0.5, render=0.2, case=1.5, copy=0.3, match_case_match=1.5, matching_adjacent=1.5),
     'C17': weights(find_settings=5, settings_at=2.5, apply=4, remove=2, slice=0.5, add=0.7, iadd=0.7, pad=1.2, assign_str=0.6, grow_then_slice=1.5,
                    strip=0.5, new_from=0.8),
     'C04': weights(slice=5, index=2, clip=2, iter=1.5, iter_join=0.6, apply=3, remove=1.5, pad=0.8, assign_str=0.6, strip=0.4,
                    same_form_nested=1.2, grow_then_slice=1.2),
-    'C05': weights(add=4, iadd=4, join=2, split_rejoin=2, slice=2, iter_join=1.0, shared_objects=0.8, seam_order=1.2),
+    'C05': weights(add=4, iadd=4, join=2, split_rejoin=2, slice=2, iter_join=1.0, shared_objects=0.8, seam_order=1.2, same_form_nested=1.0, join_plain_escapes=1.0),
     'C06': weights(apply=6, remove=1.5, slice=1, restart_leftover=1.5, bottom_at_begin=1.5, same_form_nested=1.5, apply_match=0.7),
     'C07': weights(remove=4, remove_edge=2.5, apply=5, clear=0.3, remove_prefixlike=1.2),
     'C08': weights(copy=3, eq=0.8, add=2.5, iadd=2.5, join=1.5, slice=3, new_from=2, replace=2, pad=0.7, strip=0.5, split=0.5, fmt=0.7,
@@ -1070,7 +1134,8 @@ def gen_render_family(m, rng, job):
 # ---- C02: inputs with escape sequences -----------------------------------------------------------
 SEQ_ALPHA = ['1', '31', '1;31', '38;5;214', '1;38;5;214', '38;5;214;1', '4;58;5;9', '38;2;1;2;3', '38;2;1;2;3;4',
              '48;5;7;22', '0', '', '22', '39', '0;1', '1;0', '99', '1;99;31', '21;24', '2;22;3', '38;5', '1;38;2;5;6',
-             '58;2;9;8;7;53', '10', '11;10', '91;39;34']
+             '58;2;9;8;7;53', '10', '11;10', '91;39;34', '1;38;2;255;128;64;48;2;100;100;100', '1;3;4;5;7;9;21;31;41;53;58;5;200;97;107',
+             '107', '1;107', '106;107;3', '38;2;255;255;255;48;2;0;0;0;58;2;128;128;128']
 SEQ_NONSGR = ['\x1b[2J', '\x1b[H', '\x1b[1;2H', '\x1b[K']
 SEQ_OUT_OF_CLAIM = ['\x1b[1;;3m', '\x1b[38;7;1m', '\x1b[38;5;300m', '\x1b[?1m', '\x1b[1:2m', '\x1b[ 1m']
 
